@@ -150,13 +150,20 @@ def eliminate_definitions(constraints):
                     break
     if not eqs:
         return flat
-    subs = list(eqs.values())
-    out = flat
-    for _ in range(6):
-        new = [z3.substitute(c, *subs) for c in out]
-        if all(n.get_id() == o.get_id() for n, o in zip(new, out)):
-            break
-        out = new
+    # resolve the definitions among themselves in creation order (aux!k only depends on earlier aux variables)
+    order = sorted(eqs.values(), key=lambda ab: int(ab[0].decl().name().rsplit("!", 1)[1]))
+    resolved = []
+    for a, b in order:
+        if resolved and not vars_of(b).isdisjoint({x.decl().name() for x, _ in resolved}):
+            b = z3.substitute(b, *resolved)
+        resolved.append((a, b))
+    names = {a.decl().name() for a, _ in resolved}
+    out = []
+    for c in flat:
+        if vars_of(c).isdisjoint(names):
+            out.append(c)
+        else:
+            out.append(z3.substitute(c, *resolved))
     return out
 
 
@@ -412,6 +419,26 @@ class Ctx:
         if self.deadline is not None and time.time() > self.deadline:
             raise PathCap("time budget exhausted inside a path")
         cons = self._slice(vars_of(e), 2) + [e]
+        if self.opts.get("cheap_forks"):
+            # undecided directions are explored (sound: obligations are then proven on a superset of the real paths)
+            key = tuple(sorted(c.get_id() for c in cons))
+            if key in self.cache:
+                self.stats.cache_hits += 1
+                return self.cache[key]
+            t0 = time.time()
+            try:
+                r = "unsat" if relaxation_unsat(cons) else "unknown"
+            except z3.Z3Exception:
+                r = "unknown"
+            tmo = self.opts.get("cheap_fork_timeout_ms", 0)
+            if r == "unknown" and tmo:
+                r, _ = self._z3_check(cons, tmo, False)
+            self.stats.solver_s += time.time() - t0
+            self.stats.queries[r] += 1
+            self.cache[key] = r
+            self._keep = getattr(self, "_keep", [])
+            self._keep.append(cons)
+            return r
         r, _ = self.solve(cons, timeout_ms or self.opts["fork_timeout_ms"])
         if r == "unknown":
             # retry on the abstraction: unsat there is still unsat
